@@ -56,7 +56,7 @@ Definition pkind_eqb (a b : pkind) : bool :=
 Record prop := mkProp {
   pk : pkind;
   pval : Z;            (* index into the harness's table of value strings for that kind *)
-  pvalid : bool;       (* whether that string matches the unit pattern of the kind *)
+  pvalid : bool;       (* whether the component (value string, segmentGroup id) meets its schema facets *)
   pgrp : string        (* segmentGroup attribute *)
 }.
 Definition prop_eqb (a b : prop) : bool :=
@@ -462,17 +462,24 @@ Definition role_free (c : cell) (g : string) (tag : option stype) : bool :=
 Definition tag_of (conv : bool) (ty : option string) : option stype :=
   if conv then match ty with Some s => parse_type s | None => None end else None.
 
-(* the hypothesis the invariant proof forces on group ids handed to add_segment /
-   add_unbranched_segments: not one of the four default names, and always used with the same
-   (use_convention, seg_type) *)
+(* "one group id - one role", the hypothesis the invariant proof forces on the group id handed to
+   add_segment / add_unbranched_segments:
+   a user group id is always used with the same (use_convention, seg_type);
+   soma_group / axon_group / dendrite_group only under the convention with their own type;
+   "all" only under the convention (any type) *)
+Definition group_ok (c : cell) (g : string) (tag : option stype) : bool :=
+  if String.eqb g "all" then match tag with Some _ => true | None => false end
+  else if is_default g then match tag with Some t => String.eqb g (dname t) | None => false end
+  else role_free c g tag.
+
 Definition op_ok (c : cell) (o : op) : bool :=
   match o with
   | AddSegment _ _ _ _ _ group conv ty _ _ | AddUnbranched _ _ _ group conv ty _ _ =>
     match opt_group group with
-    | Some g => negb (is_default g) && role_free c g (tag_of conv ty)
+    | Some g => group_ok c g (tag_of conv ty)
     | None => true
     end
-  | AddSegmentGroup a _ | AddUnbranchedGroup a => negb (is_default a) && negb (String.eqb a "")
+  | AddSegmentGroup a _ | AddUnbranchedGroup a => negb (String.eqb a "")
   | _ => true
   end.
 
